@@ -31,6 +31,10 @@ func groupShape(groups [][]majEntry) string {
 func configuredParams(g *genReq, s *dmpSnap) string {
 	mp, _ := g.M["methodParameters"].(M)
 	p := s.Params
+	// the considered alternatives reach the method in the order of choseToMake (the fixed search order)
+	if fmt.Sprint(idsOfAlts(s.Cons)) != fmt.Sprint(g.chose) {
+		return fmt.Sprintf("the considered alternatives reach the method as %v, choseToMake lists them as %v", idsOfAlts(s.Cons), g.chose)
+	}
 	if want := strOr(mp, "drawResolution", ""); g.method == "majorityHeuristic" && p.Draw != want {
 		return fmt.Sprintf("draw policy in force is '%s', the request configures '%s'", p.Draw, want)
 	}
@@ -187,6 +191,10 @@ func c11Sampled(c *caseCtx) {
 	if c.rng.Intn(2) == 0 {
 		o.profile = profTies
 	}
+	if c.rng.Intn(8) == 0 {
+		// prices around 2.45e6 that differ by 1..3, weights around 1.2e6: differences far above the 1e-6 tolerance
+		o.bigNumbers, o.profile, o.noRange = true, profTies, true
+	}
 	if c.rng.Intn(4) == 0 {
 		// weights 0.1 .. 0.5: score sums that are equal mathematically but not bit-for-bit (0.1+0.2 vs 0.3) are draws
 		o.decimalW, o.minCrit, o.maxCrit, o.profile = true, 3, 5, profTies
@@ -199,6 +207,9 @@ func c11Sampled(c *caseCtx) {
 // C12
 
 func levelFragile(s *dmpSnap, levels []map[string]float64) bool {
+	if s.Params.Levels != nil && s.Params.Levels.Fn == "thresholds" {
+		return false // explicit thresholds and values are compared as given: nothing is computed, nothing is fragile
+	}
 	fr := &fragility{}
 	for _, t := range levels {
 		for _, cr := range s.Crit {
@@ -347,7 +358,24 @@ func c12Sampled(c *caseCtx) {
 		o.nearTiedW, o.distinctW, o.minCrit = true, false, 2 // distinct weights 1e-7 apart: still "heaviest first"
 	}
 	g := genRequest(c.rng, o)
+	nearThreshold(c, g)
 	c12Check(c, g, decide(g.body(), true))
+}
+
+// nearThreshold: with explicit thresholds, now and then an alternative misses / meets a threshold by 3e-10
+func nearThreshold(c *caseCtx, g *genReq) {
+	mp := g.M["methodParameters"].(M)
+	if mp["function"] != "thresholds" || c.rng.Intn(4) != 0 || g.M["biases"] != nil {
+		return
+	}
+	ths := mp["params"].(M)["thresholds"].([]interface{})
+	t := ths[c.rng.Intn(len(ths))].(M)
+	a := g.M["knownAlternatives"].([]interface{})[c.rng.Intn(len(g.altIds))].(M)["criteria"].(M)
+	for _, cs := range g.crits {
+		if c.rng.Intn(2) == 0 {
+			a[cs.id] = t[cs.id].(float64) + []float64{-3e-10, 3e-10}[c.rng.Intn(2)]
+		}
+	}
 }
 
 // ---------------------------------------------------------------------------------------------
@@ -464,6 +492,7 @@ func c13Sampled(c *caseCtx) {
 		o.fixedOrder = true
 	}
 	g := genRequest(c.rng, o)
+	nearThreshold(c, g)
 	c13Check(c, g, decide(g.body(), true))
 }
 
